@@ -22,8 +22,9 @@ theorem gen_store_retry (i : Gen.StoreoptsIn) :
     (C03.genSFL i).errorRetry = (if i.changed "error-retry" then i.flagI "error-retry" else i.cfgI "ErrorRetry") ∧
     (C03.genISFL i).errorRetry = (if i.changed "error-retry" then i.flagI "error-retry" else i.cfgI "ErrorRetry") ∧
     (C03.genSFL i).errorRetryBaseInterval =
-      (if i.changed "error-retry-base-interval" then i.flagI "error-retry-base-interval" else i.cfgI "ErrorRetryBaseInterval") := by
-  refine ⟨?_, ?_, ?_⟩ <;> rfl
+      (if i.changed "error-retry-base-interval" then i.flagI "error-retry-base-interval" else i.cfgI "ErrorRetryBaseInterval") ∧
+    Gen.storeoptsSFLUniform = true ∧ Gen.storeoptsISFLUniform = true := by
+  refine ⟨?_, ?_, ?_, C03.gen_store_dispatch.1, C03.gen_store_dispatch.2.1⟩ <;> optwire
 
 example : (mergedWith ⟨1, "", "", "", false, 9, 0, false, false, false, false, true, false⟩ defaults).errorRetry = 9 ∧
     (mergedWith ⟨1, "", "", "", false, 9, 0, false, false, false, false, false, false⟩ defaults).errorRetry = 3 := by decide
